@@ -864,7 +864,7 @@ def c06(a):
     return v.finish()
 
 
-CALC_V = __import__("re").compile(r'^<<"V", (\d+), (\d+), "([^"]*)", "([^"]*)">>', __import__("re").M)
+CALC_V = __import__("re").compile(r'<<\s*"V",\s*(\d+),\s*(\d+),\s*"([^"]*)",\s*"([^"]*)"\s*>>')
 
 
 def judge_calc(trace, tag):
@@ -873,7 +873,15 @@ def judge_calc(trace, tag):
     vlib.tlc_or_die(res, f"Judge_Calc on {trace}")
     if res.post_failed:
         raise vlib.ToolError("Judge_Calc did not consume every session")
-    return res, [(int(m.group(1)), int(m.group(2)), m.group(3), m.group(4)) for m in CALC_V.finditer(res.out)]
+    out = [(int(m.group(1)), int(m.group(2)), m.group(3), m.group(4)) for m in CALC_V.finditer(res.out)]
+    expect = 0
+    for line in open(trace):
+        if '"seeds"' in line:
+            q = json.loads(line)
+            expect += len(q["seeds"]) + len(q["steps"])
+    if len(out) != expect:
+        raise vlib.ToolError(f"Judge_Calc: {expect} seeds+steps recorded but {len(out)} verdict lines parsed ({trace})")
+    return res, out
 
 
 def calc_pipeline(v, pid, tier, alphabet, max_steps, families, acts, what, n_per_family, mc_diff=False):
@@ -1029,3 +1037,87 @@ def c05(a):
                          "f32/f64 up to rounding by that argument, not by a float oracle")
     return finish_calc(v, "programs typed by base point (every function argument shifted onto the function's expansion point) over + - * / ^ "
                           "and 18 elementary functions, first and second order, flat/deep/converted", {"program": "sin(x*y + 1/2 - 1/2) * exp(x)"})
+
+
+VD_V = __import__("re").compile(r'<<\s*"V",\s*(\d+),\s*(\d+),\s*"valdiff",\s*"([^"]*)"\s*>>')
+
+
+@register("C18")
+def c18(a):
+    v = Verdict("C18", a.tier, "model_checking")
+    what = "derivative of a value-typed / piecewise expression"
+    q = a.tier == "quick"
+    # the differentiation rules themselves are the float rules (C05): MC_Diff is their model-level check
+    cfg = work("C18", "mcdiff.cfg")
+    write_cfg(cfg, {"MaxUn": 1, "Stats": True}, invariants=["RulesOk"])
+    res = vlib.run_tlc("MC_Diff", cfg, "C18-mcdiff", workers=16, timeout=3000, heap="6g")
+    if not res.ok:
+        print(res.out[-3000:])
+        raise vlib.ToolError(f"MC_Diff: {res.violated or res.error} - spec bug")
+    v.add_tlc(res, "MC_Diff")
+    n = 1600 if q else 30000
+    jobs = []
+    for k in range(8):
+        tag = f"C18/valdiff-{k}"
+        jobs.append(lambda tag=tag, k=k: (tag,) + pipeline.fuzz_replay(
+            tag, ["fuzz-calc", "--family", "valdiff", "--n", str(n // 8), "--stream", str(k)], [], mode="valdiff"))
+    stats = {"ok": 0, "inconclusive": 0, "bad": 0, "known": 0}
+    traces = []
+    for tag, summ, obsp in parallel(jobs):
+        if summ.get("crashed"):
+            v.violation({"pipeline": tag, "detail": summ}, f"{what}: the library aborted the recorder process in {tag}")
+            continue
+        v.cov["traces_validated_against_impl"] += summ["cases"]
+        v.cov["evaluations"] += summ["runs"]
+        lines = open(obsp).read().splitlines(True)
+        open(obsp, "w").writelines(lines[1:])
+        traces.append((obsp, summ["runs"]))
+    def judge(p, nruns):
+        cfgj = os.path.join(SPEC, "Judge_ValDiff.cfg")
+        r = vlib.run_tlc("Judge_ValDiff", cfgj, f"C18-j-{os.path.basename(p)}", workers=1, timeout=3000, env_extra={"TRACE": p}, heap="4g")
+        vlib.tlc_or_die(r, f"Judge_ValDiff on {p}")
+        vs = [(int(m.group(1)), int(m.group(2)), m.group(3)) for m in VD_V.finditer(r.out)]
+        if len(vs) != nruns:
+            raise vlib.ToolError(f"Judge_ValDiff: {nruns} runs recorded but {len(vs)} verdicts parsed ({p})")
+        return p, r, vs
+    for p, r, vs in parallel([(lambda p=p, nr=nr: judge(p, nr)) for p, nr in traces], 8):
+        v.add_tlc(r, f"Judge_ValDiff[{os.path.basename(p)}]")
+        recs = None
+        for case, kq, verdict in vs:
+            if verdict == "ok":
+                stats["ok"] += 1
+                continue
+            if verdict.startswith("inconclusive"):
+                stats["inconclusive"] += 1
+                continue
+            if recs is None:
+                recs = {}
+                for line in open(p):
+                    qq = json.loads(line)
+                    if "case" in qq:
+                        recs[qq["case"]] = qq
+            text = vlib.uncps(recs.get(case, {}).get("text", []))
+            if "[F6:" in verdict:
+                stats["known"] += 1
+                v.known_finding("F6", "differentiation folds integer literals with integer arithmetic (quotient rule: 2/4 = 0) and applies "
+                                      "ln to integer bases: programs with an integer literal next to / or ^")
+                continue
+            if "[F10:" in verdict:
+                stats["known"] += 1
+                v.known_finding("F10", "`a if c else b` with a variable-free condition that is false: `a if c` is folded to None at parse "
+                                       "time and the derivative of that constant is 0 instead of None, so the else-branch is ignored")
+                continue
+            stats["bad"] += 1
+            v.violation({"text": text, "point": recs.get(case, {}).get("point"), "k": kq, "record": recs.get(case)},
+                        f"{what}: `{text}` variable {kq}: {verdict}")
+    v.cov["steps_judged"] = stats
+    v.cov["distinct_nontrivial"] = stats["ok"] + stats["bad"] + stats["known"]
+    v.cov["rule"] = ("seeded programs `f if cond else g` nested up to 3 levels with arithmetic around them, f/g typed by base point, comparison "
+                     "conditions of polynomials strictly inside a branch at a dyadic point; 70% float literals only, 30% integer literals")
+    v.sample({"text": "2.5 + ((x*x) if (x) > (1.0) else (3.0*x))", "point": {"x": "5/4"}})
+    v.notes.append("the derivative's structure is read through the verif_dump hook (flat nodes, operators, application order) and turned into a "
+                   "tree by FlatImpl.Eval inside the judge; the antiderivative is parsed from the text by the reference; branches are selected by "
+                   "exact rational evaluation of the conditions (Piecewise.tla)")
+    v.assumptions += ["integers and floats are identified as real numbers in the judge: a program whose own value depends on integer division is "
+                      "classified under F6, not judged", "MC_Diff (shared with C05) covers the rule table"]
+    return v.finish()
